@@ -53,6 +53,12 @@ INSTANCES = {
                     dict(job=1, tasks=[(3, [1], 0, 0), (4, [3], 0, 1)], climit=0, max_fails=-1),
                     dict(job=2, tasks=[(1, [], 0, 0)], climit=0, max_fails=-1)],
               losses=0, cancels=1, fails=1, launch_fails=0, pf_reserve=0, pf_max=1, modes=["eager"], tier="thorough"),
+    # time: a worker with 2 hours of life and one without limit; a class that needs 2 hours; a task time limit of 1 hour;
+    # pre-sent tasks, a later job of higher priority; three hours may pass
+    "T": dict(workers=[1, 1], life=[2, -1], classes=[("time", 1, 2), 1], ticks=3,
+              menu=[dict(tasks=[(1, [], 0, 0), (2, [], 0, 0), (3, [], 0, 0)], climit=0, max_fails=-1),
+                    dict(tasks=[(1, [], 1, 5)], climit=0, max_fails=-1, tlimit=1)],
+              losses=0, cancels=1, fails=0, launch_fails=0, pf_reserve=0, pf_max=2, modes=["eager"], tier="thorough"),
     # restart from the journal at every crash point (journal kept as history variable, so the instance is tiny):
     # dependency + job failure limit 0 + crash limit 2, two losses, a failure, a cancel
     "J": dict(workers=[1, 1], classes=[1], journaling=True,
@@ -118,21 +124,25 @@ def instance_tla(name, inst):
             return f"Mn({c[1]})"
         if isinstance(c, tuple) and c[0] == "var":
             return " \\o ".join(f"Cpu({a * 10000})" for a in c[1])
+        if isinstance(c, tuple) and c[0] == "time":
+            return f"CpuT({c[1] * 10000}, {c[2]})"
         return f"Cpu({c * 10000})"
     cls = ", ".join(cls_tla(c) for c in inst["classes"])
     menu = []
     for j, s in enumerate(inst["menu"]):
         ts = ", ".join(f"T({t[0]}, {tla_set(t[1])}, {t[2]}, {t[3]})" for t in s["tasks"])
-        menu.append(f"S({s.get('job', j + 1)}, <<{ts}>>, {s['climit']}, {s['max_fails']})")
+        menu.append(f"S({s.get('job', j + 1)}, <<{ts}>>, {s['climit']}, {s['max_fails']}, {s.get('tlimit', 0)})")
     op = inst.get("open_jobs") or {}
     ops = " @@ ".join(f"({j} :> {mf})" for j, mf in sorted(op.items())) or "<<>>"
-    return (f"{name}_Workers == {ws}\n{name}_Groups == {gs}\n{name}_Classes == <<{cls}>>\n{name}_Open == {ops}\n{name}_Menu == << " + ",\n             ".join(menu) + " >>\n")
+    life = inst.get("life") or [-1] * len(inst["workers"])
+    ls = " @@ ".join(f"({i + 1} :> {l})" for i, l in enumerate(life))
+    return (f"{name}_Workers == {ws}\n{name}_Life == {ls}\n{name}_Groups == {gs}\n{name}_Classes == <<{cls}>>\n{name}_Open == {ops}\n{name}_Menu == << " + ",\n             ".join(menu) + " >>\n")
 
 
 def cfg_text(name, inst, mode, spec="Spec", extra_inv=()):
     inv = INVARIANTS + (EAGER_ONLY if mode == "eager" else []) + (JOURNAL_INV if inst.get("journaling") else []) + list(extra_inv)
     lines = [f"SPECIFICATION {spec}", "CONSTANTS",
-             f"  WorkerCpus <- {name}_Workers", f"  WorkerGroup <- {name}_Groups", f"  Menu <- {name}_Menu", f"  OpenJobs <- {name}_Open", f"  Classes <- {name}_Classes",
+             f"  WorkerCpus <- {name}_Workers", f"  WorkerGroup <- {name}_Groups", f"  WorkerLife <- {name}_Life", f"  MaxTicks = {inst.get('ticks', 0)}", f"  Menu <- {name}_Menu", f"  OpenJobs <- {name}_Open", f"  Classes <- {name}_Classes",
              f"  MaxLosses = {inst['losses']}", f"  MaxCancels = {inst['cancels']}", f"  MaxFails = {inst['fails']}",
              f"  MaxLaunchFails = {inst['launch_fails']}", f"  PfReserve = {inst['pf_reserve']}", f"  PfMax = {inst['pf_max']}",
              f"  Eager = {'TRUE' if mode == 'eager' else 'FALSE'}", f"  Journaling = {'TRUE' if inst.get('journaling') else 'FALSE'}",
@@ -153,7 +163,8 @@ def generate():
            "Cpu(a) == <<[n_nodes |-> 0, entries |-> <<[r |-> 0, amount |-> a]>>, min_time |-> 0]>>",
            "Mn(k) == <<[n_nodes |-> k, entries |-> <<>>, min_time |-> 0]>>",
            "T(id, deps, rq, prio) == [id |-> id, deps |-> deps, rq |-> rq, prio |-> prio]",
-           "S(jb, ts, climit, maxFails) == [job |-> jb, tasks |-> ts, climit |-> climit, maxFails |-> maxFails]", ""]
+           "S(jb, ts, climit, maxFails, tl) == [job |-> jb, tasks |-> ts, climit |-> climit, maxFails |-> maxFails, tlimit |-> tl]",
+           "CpuT(a, mt) == <<[n_nodes |-> 0, entries |-> <<[r |-> 0, amount |-> a]>>, min_time |-> mt]>>", ""]
     for name, inst in INSTANCES.items():
         out.append(instance_tla(name, inst))
     out.append("=============================================================================")
@@ -171,20 +182,22 @@ def generate():
 def profile_of(name):
     inst = INSTANCES[name]
     groups = inst.get("groups") or [""] * len(inst["workers"])
-    kinds = sorted(set(zip(inst["workers"], groups)))
+    life = [max(l, 0) for l in (inst.get("life") or [-1] * len(inst["workers"]))]
+    kinds = sorted(set(zip(inst["workers"], groups, life)))
     return {
         "name": "model" + name, "journal": True, "manual_flush": False, "reserve": inst["pf_reserve"], "pf_max": inst["pf_max"],
-        "worker_kinds": [{"cpus": c, "gpus": 0, "group": g, "time_limit": 0} for c, g in kinds],
-        "initial_workers": [kinds.index(cg) for cg in zip(inst["workers"], groups)], "max_connects": 0,
+        "worker_kinds": [{"cpus": c, "gpus": 0, "group": g, "time_limit": l} for c, g, l in kinds],
+        "initial_workers": [kinds.index(cg) for cg in zip(inst["workers"], groups, life)], "max_connects": 0,
         "classes": [({"variants": [{"cpus": 0, "gpus": 0, "min_time": 0}], "n_nodes": c[1]} if isinstance(c, tuple) and c[0] == "mn"
+                     else {"variants": [{"cpus": c[1] * 10000, "gpus": 0, "min_time": c[2]}], "n_nodes": 0} if isinstance(c, tuple) and c[0] == "time"
                      else {"variants": [{"cpus": a * 10000, "gpus": 0, "min_time": 0} for a in c[1]], "n_nodes": 0} if isinstance(c, tuple)
                      else {"variants": [{"cpus": c * 10000, "gpus": 0, "min_time": 0}], "n_nodes": 0}) for c in inst["classes"]],
         "submits": [{"into_open": bool((inst.get("open_jobs") or {}).get(s.get("job"), None) is not None) if s.get("job") in (inst.get("open_jobs") or {}) else False, "ids": [], "entries": 0,
                      "graph": [{"id": t[0], "deps": list(t[1]), "class": t[2], "prio": t[3]} for t in s["tasks"]],
-                     "class": 0, "prio": 0, "crash_limit": s["climit"], "time_limit": 0, "max_fails": s["max_fails"], "stream": False}
+                     "class": 0, "prio": 0, "crash_limit": s["climit"], "time_limit": s.get("tlimit", 0), "max_fails": s["max_fails"], "stream": False}
                     for s in inst["menu"]],
         "max_submits": len(inst["menu"]), "opens": len(inst.get("open_jobs") or {}), "losses": inst["losses"], "cancels": inst["cancels"], "fails": inst["fails"],
-        "launch_fails": inst["launch_fails"], "stops": 0, "ticks": 0, "forgets": 0, "drain": True, "prunes": 0, "queue_events": 0,
+        "launch_fails": inst["launch_fails"], "stops": 0, "ticks": inst.get("ticks", 0), "forgets": 0, "drain": True, "prunes": 0, "queue_events": 0,
     }
 
 
